@@ -65,10 +65,23 @@ class NormalLog:
         return torch.full(tuple(size), v, dtype=dtype or torch.get_default_dtype(), device=device)
 
 
+class Gain(nn.Module):
+    """a FROZEN parameter (requires_grad=False) that scales the output: it takes part in the forward, so
+    workers that did not receive rank 0's value compute different gradients"""
+
+    def __init__(self, v):
+        super().__init__()
+        self.g = nn.Parameter(torch.tensor(float(v)), requires_grad=False)
+
+    def forward(self, x):
+        return x * self.g
+
+
 class TwoBranch(nn.Module):
-    def __init__(self, d1, d2, init):
+    def __init__(self, d1, d2, init, gain=None):
         super().__init__()
         self.d1 = d1
+        self.gain = None if gain is None else Gain(gain)
         self.fc1 = nn.Linear(d1, 1, bias=False)
         self.fc2 = nn.Linear(d2, 1, bias=False)
         with torch.no_grad():
@@ -76,7 +89,8 @@ class TwoBranch(nn.Module):
             self.fc2.weight.copy_(torch.tensor(init[1], dtype=self.fc2.weight.dtype).view(1, d2))
 
     def forward(self, x):
-        return self.fc1(x[:, : self.d1]) + self.fc2(x[:, self.d1 :])
+        out = self.fc1(x[:, : self.d1]) + self.fc2(x[:, self.d1 :])
+        return out if self.gain is None else self.gain(out)
 
 
 class TokenLoss(nn.Module):
@@ -121,6 +135,9 @@ def err_str(e):
 
 
 # ----------------------------------------------------------------------------- one configuration
+ACCT = {}   # the accountant of the configuration being run (engine's own, or attached in the direct path)
+
+
 def build(cfg, rank, world):
     """returns (module, optimizer, criterion, info) built the way a user would (engine path) or by
     constructing the optimizer classes directly (cfg['path'] == 'direct')"""
@@ -131,7 +148,9 @@ def build(cfg, rank, world):
     variant, red = cfg["variant"], cfg["reduction"]
     dist_mode = world > 0
     init = cfg["init"][rank] if dist_mode else cfg["init"][0]
-    model = TwoBranch(d1, d2, init)
+    # cfg["frozen"]: a frozen gain, 1 on rank 0 (and in the single-process reference), 1 + rank elsewhere
+    gain = (1.0 + (rank if dist_mode else 0)) if cfg.get("frozen") else None
+    model = TwoBranch(d1, d2, init, gain)
     info = {"params_before_wrap": snapshot(model)}
     wrapped = model
     if dist_mode:
@@ -144,7 +163,8 @@ def build(cfg, rank, world):
             wrapped = DDP(model)
         info["wrap"] = wrap
     info["params_after_wrap"] = snapshot(model)
-    inner = torch.optim.SGD(model.parameters(), lr=cfg["lr"])
+    info["frozen_after_wrap"] = None if model.gain is None else float(model.gain.g)
+    inner = torch.optim.SGD([p for p in model.parameters() if p.requires_grad], lr=cfg["lr"])
     E = cfg["E"]
     per_layer = variant.startswith("perlayer")
     mgn = list(cfg["C"]) if per_layer else cfg["C"]
@@ -189,6 +209,13 @@ def build(cfg, rank, world):
             else:
                 cls = O.DPPerLayerOptimizer if per_layer else O.DPOptimizer
             opt = cls(inner, **okw)
+    if cfg.get("path", "engine") == "engine":
+        ACCT["a"] = eng.accountant
+    else:
+        from opacus.accountants import RDPAccountant
+
+        ACCT["a"] = RDPAccountant()
+        opt.attach_step_hook(ACCT["a"].get_optimizer_hook_fn(sample_rate=1.0 / 3.0))
     info["optimizer_class"] = type(opt).__name__
     info["expected_batch_size"] = None if opt.expected_batch_size is None else float(opt.expected_batch_size)
     return module, opt, crit, info
@@ -240,6 +267,8 @@ def run_config(cfg, rank, world, normal):
         st["noise_calls"] = [c for c in normal.calls[c0:]]
         res["steps"].append(st)
     res["noise_calls_total"] = len(normal.calls) - n0
+    a = ACCT.get("a")
+    res["history"] = None if a is None else [[float(x), float(y), int(n)] for x, y, n in a.history]
     if world > 0 and "aborted_at" not in res:
         # probe of the public helper `opacus.distributed.average_gradients`: every rank loads its own
         # initial weights into .grad, then averages
